@@ -467,6 +467,55 @@ func c01opts(k *mon.Case) fontgen.Opts {
 	return o
 }
 
+// c01shiftActions renumbers the nested actions of contextual lookups after a
+// lookup was inserted at position pos (the inserted lookup is left alone).
+func c01shiftActions(ll gtab.LookupList, pos int, inserted *gtab.LookupTable) {
+	fix := func(acts []gtab.SeqLookup) {
+		for i := range acts {
+			if int(acts[i].LookupListIndex) >= pos {
+				acts[i].LookupListIndex++
+			}
+		}
+	}
+	for _, l := range ll {
+		if l == inserted {
+			continue
+		}
+		for _, st := range l.Subtables {
+			switch s := st.(type) {
+			case *gtab.SeqContext1:
+				for _, rs := range s.Rules {
+					for _, ru := range rs {
+						fix(ru.Actions)
+					}
+				}
+			case *gtab.SeqContext2:
+				for _, rs := range s.Rules {
+					for _, ru := range rs {
+						fix(ru.Actions)
+					}
+				}
+			case *gtab.SeqContext3:
+				fix(s.Actions)
+			case *gtab.ChainedSeqContext1:
+				for _, rs := range s.Rules {
+					for _, ru := range rs {
+						fix(ru.Actions)
+					}
+				}
+			case *gtab.ChainedSeqContext2:
+				for _, rs := range s.Rules {
+					for _, ru := range rs {
+						fix(ru.Actions)
+					}
+				}
+			case *gtab.ChainedSeqContext3:
+				fix(s.Actions)
+			}
+		}
+	}
+}
+
 // c01roundTrip is the deciding sequence for a constructed font: Write twice
 // (and, for every sixth case, once more in a second process), Read, compare
 // with the normal form, and the byte fixed point.
@@ -573,19 +622,57 @@ func runC01(c *mon.Ctx) {
 		// format the encoders support (contextual and chaining rules, mark
 		// attachment, lookup flags, mark filtering sets, several scripts)
 		r := k.Rng
-		f, info := fontgen.Font(r, fontgen.Opts{Kind: []string{"glyf", "cff", "cid"}[k.Index%3], MinGlyphs: 8, MaxGlyphs: 300})
+		ro := fontgen.Opts{Kind: []string{"glyf", "cff", "cid"}[k.Index%3], MinGlyphs: 8, MaxGlyphs: 300}
+		if k.Index%25 == 7 {
+			ro.MinGlyphs = 250
+		}
+		f, info := fontgen.Font(r, ro)
 		if f.CreationTime.IsZero() && f.ModificationTime.IsZero() {
 			f.ModificationTime = f.ModificationTime.AddDate(2001, 0, 0)
 		}
 		n := f.NumGlyphs()
 		o := otl.Opts{MaxGID: n - 1, NumLookups: 1 + r.IntN(8), Size: []otl.Size{otl.Tiny, otl.Tiny, otl.Small}[r.IntN(3)]}
 		which := r.IntN(4)
+		if k.Index%25 == 7 && which == 2 {
+			which = 0
+		}
 		if which != 1 {
 			f.Gsub = otl.Info(r, otl.GSUB, o)
 		}
 		if which != 2 {
 			o.NumLookups = 1 + r.IntN(8)
 			f.Gpos = otl.Info(r, otl.GPOS, o)
+		}
+		if k.Index%25 == 7 && f.Gpos != nil {
+			// one lookup whose subtables together exceed 64 KiB: the lookup
+			// itself needs extension records, wherever the encoder places it
+			big := &gtab.LookupTable{Meta: &gtab.LookupMetaInfo{LookupType: 2}}
+			for before := 0; before <= 0x10400; {
+				// (the offset of the last subtable must not fit 16 bits)
+				st := otl.Subtable(r, otl.GPOS, 2, 1+r.IntN(2), otl.Opts{MaxGID: n - 1, Bytes: 24000 + r.IntN(12000), NumLookups: 1})
+				big.Subtables = append(big.Subtables, st)
+				before += len(c08encode(st))
+			}
+			big.Subtables = append(big.Subtables, otl.Subtable(r, otl.GPOS, 2, 1, otl.Opts{MaxGID: n - 1, Bytes: 2000, NumLookups: 1}))
+			pos := r.IntN(len(f.Gpos.LookupList) + 1)
+			ll := append(gtab.LookupList{}, f.Gpos.LookupList[:pos]...)
+			ll = append(ll, big)
+			ll = append(ll, f.Gpos.LookupList[pos:]...)
+			// nested actions and features refer to lookups by index
+			shift := func(i gtab.LookupIndex) gtab.LookupIndex {
+				if int(i) >= pos {
+					return i + 1
+				}
+				return i
+			}
+			for _, ft := range f.Gpos.FeatureList {
+				for j := range ft.Lookups {
+					ft.Lookups[j] = shift(ft.Lookups[j])
+				}
+			}
+			f.Gpos.LookupList = ll
+			c01shiftActions(ll, pos, big)
+			k.Class("rich-layout:one-lookup-over-64k")
 		}
 		if r.IntN(3) > 0 {
 			f.Gdef = otl.Gdef(r, n)
@@ -741,7 +828,7 @@ func runC01(c *mon.Ctx) {
 		k.Class("concurrent-read")
 	})
 	c.Require("concurrent-read")
-	c.Require("rich-layout:gdef", "rich-layout:gsub5.2", "rich-layout:gsub6.3", "rich-layout:gsub8.1", "rich-layout:gpos4.1", "rich-layout:gpos6.1", "rich-layout:gpos8.2")
+	c.Require("rich-layout:one-lookup-over-64k", "rich-layout:gdef", "rich-layout:gsub5.2", "rich-layout:gsub6.3", "rich-layout:gsub8.1", "rich-layout:gpos4.1", "rich-layout:gpos6.1", "rich-layout:gpos8.2")
 	c.Require("kind=glyf,layout=yes", "kind=glyf,layout=no", "kind=cff,layout=yes", "kind=cff,layout=no", "kind=cid,layout=yes", "kind=cid,layout=no",
 		"cross-process-determinism", "bytes:accepted", "rule:capheight-from-H", "rule:italic-angle-rounding", "rule:underline-rounding", "rule:version-rounding", "glyphs~256")
 }
